@@ -276,6 +276,67 @@ func damageCorpus() []scripted {
 	return out
 }
 
+// corrupt-record scenarios without a restart: the running client meets a record that no
+// longer decodes (C15: reported as corrupt, never used, never taken for absent)
+func corruptCorpus() []scripted {
+	type dmg struct {
+		label string
+		key   uint
+		f     func(v []byte) []byte
+	}
+	var ds []dmg
+	for _, k := range []uint{0, 0x10009, 0x8000, 0x8001, 0xc000, 0xc001} {
+		for _, n := range []int{0, 1, 11} {
+			k, n := k, n
+			ds = append(ds, dmg{fmt.Sprintf("record %#x truncated to %d bytes", k, n), k, func(v []byte) []byte {
+				if len(v) < n {
+					return v
+				}
+				return append([]byte{}, v[:n]...)
+			}})
+		}
+		ds = append(ds, dmg{fmt.Sprintf("record %#x with one byte altered", k), k, func(v []byte) []byte {
+			v = append([]byte(nil), v...)
+			if len(v) > 0 {
+				v[len(v)/2] ^= 0x11
+			}
+			return v
+		}})
+	}
+	var out []scripted
+	for _, d := range ds {
+		d := d
+		out = append(out, scripted{"corrupt: " + d.label, baseOpts(), func(h *hist) {
+			h.quiet(func() {
+				h.sc.budgetIn = 0
+				h.sc.dropComp = true
+				h.sc.inject = [][]byte{brokerPublish(2, false, 9, "in/x", []byte("m1")), brokerPublish(0, false, 0, "in/y", []byte("m2"))}
+				h.doRead()
+				h.doRead() // marker saved, PUBREC written
+				h.pubP(2, false, []byte("D"), "t")
+				h.sc.inject = [][]byte{brokerPublish(0, false, 0, "in/z", []byte("m3"))}
+				h.doRead() // PUBREC for D: PUBREL recorded
+				h.sc.opts.lossRate = 1000
+				h.pubP(1, false, []byte("A"), "t")
+				h.pubP(1, false, []byte("B"), "t")
+				h.pubP(2, false, []byte("E"), "t")
+				h.rewrite(func(m map[uint][]byte) {
+					if v, ok := m[d.key]; ok {
+						m[d.key] = d.f(v)
+					}
+				})
+				// a retransmission makes the client look at the marker; then the connection ends and
+				// the reconnect loads the client identifier and every pending record
+				h.sc.inject = [][]byte{brokerPublish(2, true, 9, "in/x", []byte("m1")), brokerPublish(0, false, 0, "in/w", []byte("m4"))}
+				h.drain(3)
+				h.doRead()
+				h.doRead()
+			})
+		}})
+	}
+	return out
+}
+
 func scriptedGen(s scripted) histGen {
 	return func(i int, r *rng, stats map[string]int) (string, bool, map[string]any) {
 		o := s.opts
@@ -366,6 +427,18 @@ func init() {
 		o.max1, o.max2 = 16, 16
 		return o
 	})
+	runners["C15S"] = func(tier string, seed uint64, out string) error {
+		var gens []histGen
+		for _, s := range corruptCorpus() {
+			gens = append(gens, scriptedGen(s))
+		}
+		for _, s := range damageCorpus() {
+			gens = append(gens, scriptedGen(s))
+		}
+		return runGen("C15S", "HistChecks", "c15s_run", seed, len(gens), func(i int, r *rng, stats map[string]int) (string, bool, map[string]any) {
+			return gens[i](i, r, stats)
+		}, out, 6)
+	}
 	runners["C17"] = histRunner("C17", "c17_run", false, 250, 3000, limits)
 	runners["C18"] = histRunner("C18", "c18_run", false, 250, 3000, general)
 	_ = fmt.Sprint
